@@ -10,7 +10,7 @@ inductive Store | json | redis | mongo | zarr | unknownStore
 deriving DecidableEq, Repr
 
 inductive Buffering | none | serialized | sharedMemory
-deriving DecidableEq, Repr
+deriving DecidableEq, Repr, Inhabited
 
 /-- context managers a method body is wrapped in (from its AST) -/
 inductive Ctx where
